@@ -1,14 +1,16 @@
 #!/bin/bash
 # tools/hookdrop.sh   drops each verif hook call of the repository in turn (the properties still hold: the
 # hooks are no-ops for the library) and runs the checks that use hooks; none may report a violation.
+# Env REPO / VROOT select an alternate universe (tools/altuniverse.sh); default /repo and /verif.
 set -u
 export GOFLAGS=-mod=mod GOPROXY=off GOSUMDB=off GOTOOLCHAIN=local
-cd /verif
+REPO=${REPO:-/repo}; VROOT=${VROOT:-/verif}
+cd $VROOT
 for f in v4/collection/queue.go v4/cdcn/scanner.go; do
-  for ln in $(grep -n "verifPoint(\|verifSpawn()\|defer verifEnd()" /repo/$f | cut -d: -f1); do
-    what=$(sed -n "${ln}p" /repo/$f | tr -d '\t')
-    sed -i "${ln}s/.*/\t_ = 0/" /repo/$f
-    if ! (cd /repo/v4 && go build -tags verif ./... 2>/dev/null); then echo "$f:$ln $what: does not compile, skipped"; git -C /repo checkout -- .; continue; fi
+  for ln in $(grep -n "verifPoint(\|verifSpawn()\|defer verifEnd()" $REPO/$f | cut -d: -f1); do
+    what=$(sed -n "${ln}p" $REPO/$f | tr -d '\t')
+    sed -i "${ln}s/.*/\t_ = 0/" $REPO/$f
+    if ! (cd $REPO/v4 && go build -tags verif ./... 2>/dev/null); then echo "$f:$ln $what: does not compile, skipped"; git -C $REPO checkout -- .; continue; fi
     res=""
     for id in C04 C05 C06 C11 C12; do
       out=$(./vr $id quick 2>&1); rc=$?
@@ -18,8 +20,8 @@ for f in v4/collection/queue.go v4/cdcn/scanner.go; do
       [ $v -gt 0 ] && echo "$out" | grep -A1 '^VIOLATION' | head -6
     done
     echo "$f:$ln [$what] ->$res"
-    git -C /repo reset -q; git -C /repo checkout -- .
+    git -C /repo reset -q; git -C $REPO checkout -- .
   done
 done
-git -C /verif checkout -- evidence 2>/dev/null
+[ $VROOT = /verif ] && git -C /verif checkout -- evidence 2>/dev/null
 echo HOOKDROP-DONE
